@@ -197,6 +197,7 @@ def r3(ctx):
             continue
         n += 1
         ex_ok = []
+        mv = fn.key(rhs)   # the local that is bound (whatever its name)
 
         # path exploration: typestate (found, fieldok)
         from facts import Explorer
@@ -209,14 +210,14 @@ def r3(ctx):
                 here = set()
                 for a in conj:
                     k, p = facts.atom_key(fn, a)
-                    if k in ('message', '(message == #0)'):
-                        if (k == 'message' and p) or (k != 'message' and not p):
+                    if k in (mv, '(%s == #0)' % mv):
+                        if (k == mv and p) or (k != mv and not p):
                             here.add('found')
                     elif k.startswith('(') and k.endswith(' == #0)') and not p:
                         here.add('nn:' + k[1:-7])
                     elif k.isidentifier() and p:
                         here.add('nn:' + k)
-                    if 'message.hasField(' in k and p:
+                    if ('%s.hasField(' % mv) in k and p:
                         here.add('field')
                     if k == 'this.m_hasValues' and not p:
                         here.add('field')
@@ -232,7 +233,7 @@ def r3(ctx):
                 return None
             v = fn.nodes[e]
             # re-assignment of the local message invalidates "found"
-            if v['k'] == 'BinaryOperator' and v.get('op') == '=' and fn.key(v['lhs']) == 'message':
+            if v['k'] == 'BinaryOperator' and v.get('op') == '=' and fn.key(v['lhs']) == mv:
                 st = set(x for x in user if x != 'found')
                 r = fn.nodes.get(fn.strip(v['rhs']), {})
                 if r.get('k') == 'DeclRefExpr':
